@@ -35,5 +35,6 @@ func NewRequestMethodChecker() RequestMethodChecker {
 }
 
 func isRequestMethodUnderstood(req *http.Request) bool {
-	return req.Method == http.MethodGet && req.Header.Get("Range") == ""
+	// (a Range field makes it a range request whatever the letter case of its key in the header map)
+	return req.Method == http.MethodGet && len(headerValues(req.Header, "Range")) == 0
 }
